@@ -1,1 +1,162 @@
-// harness bodies compiled inside quinn-proto/src/transport_parameters.rs (feature __verif-hooks)
+// Harness bodies for quinn-proto/src/transport_parameters.rs.
+
+const V62: u64 = 1 << 62;
+
+fn vi(x: u64) -> VarInt {
+    unsafe { VarInt::from_u64_unchecked(x) }
+}
+
+/// C10: `write` -> `read` round-trip of the integer transport parameters.  Every parameter gets a
+/// symbolic value from a range in which its varint size is fixed (so that field positions are
+/// concrete) and which differs from the default (so that it is written): two-byte values
+/// 64..16383 (max_udp_payload_size: 1200..16383, ack_delay_exponent: 4..20 one byte,
+/// active_connection_id_limit: 64.., max_ack_delay: 64..16383).  The decoded struct equals the
+/// original, for both peers' `read` side.
+pub fn roundtrip_ints(v: [u16; 11], server: bool) -> u32 {
+    let mut i = 0;
+    while i < 11 {
+        if v[i] < 64 || v[i] >= 16384 {
+            return 0;
+        }
+        i += 1;
+    }
+    if v[1] < 1200 || v[8] > 20 + 64 {
+        return 0;
+    }
+    let mut p = TransportParameters::default();
+    p.max_idle_timeout = vi(v[0] as u64);
+    p.max_udp_payload_size = vi(v[1] as u64);
+    p.initial_max_data = vi(v[2] as u64);
+    p.initial_max_stream_data_bidi_local = vi(v[3] as u64);
+    p.initial_max_stream_data_bidi_remote = vi(v[4] as u64);
+    p.initial_max_stream_data_uni = vi(v[5] as u64);
+    p.initial_max_streams_bidi = vi(v[6] as u64);
+    p.initial_max_streams_uni = vi(v[7] as u64);
+    p.ack_delay_exponent = vi(v[8] as u64 - 64 + 4 - 4); // 0..=20, one byte
+    p.max_ack_delay = vi(v[9] as u64);
+    p.active_connection_id_limit = vi(v[10] as u64);
+    if p.ack_delay_exponent.0 == 3 {
+        return 0; // the default is not written; keeps positions concrete
+    }
+    let mut buf = [0u8; 64];
+    let mut w = &mut buf[..];
+    p.write(&mut w);
+    let n = 64 - w.len();
+    // 10 two-byte values with 1-byte id and 1-byte length + one one-byte value
+    assert!(n == 10 * 4 + 3);
+    let mut r = &buf[..n];
+    let side = if server { Side::Server } else { Side::Client };
+    let Ok(q) = TransportParameters::read(side, &mut r) else { panic!("own encoding rejected") };
+    assert!(r.is_empty());
+    assert!(q == p);
+    1
+}
+
+/// C10 / C03.e: one integer parameter on the wire (id and declared length enumerated by the table,
+/// value bytes symbolic, buffer holds exactly the declared bytes): `read` never panics; Ok means the
+/// declared length equals the varint's size, the value landed in the right field (all other fields
+/// keep their defaults) and passed the semantic validation of RFC 9000 / the ack-frequency draft;
+/// a value outside the validated ranges is rejected.
+pub fn read_one_int(id: u8, len: u8, value: [u8; 8], server: bool) -> u32 {
+    if len > 8 {
+        return 0;
+    }
+    let mut buf = [0u8; 10];
+    buf[0] = id;
+    buf[1] = len;
+    buf[2..].copy_from_slice(&value);
+    let n = 2 + len as usize;
+    let mut r = &buf[..n];
+    let side = if server { Side::Server } else { Side::Client };
+    let res = TransportParameters::read(side, &mut r);
+    let d = TransportParameters::default();
+    let size = 1usize << (value[0] >> 6);
+    // big-endian value of the varint (written without a loop: keeps the unwind bound small)
+    let b = |k: usize| value[k] as u64;
+    let x: u64 = match size {
+        1 => b(0) & 0x3f,
+        2 => ((b(0) & 0x3f) << 8) | b(1),
+        4 => ((b(0) & 0x3f) << 24) | (b(1) << 16) | (b(2) << 8) | b(3),
+        _ => ((b(0) & 0x3f) << 56) | (b(1) << 48) | (b(2) << 40) | (b(3) << 32) | (b(4) << 24) | (b(5) << 16) | (b(6) << 8) | b(7),
+    };
+    let in_range = match id {
+        0x03 => x >= 1200,
+        0x08 | 0x09 => x <= MAX_STREAM_COUNT,
+        0x0a => x <= 20,
+        0x0b => x < 1 << 14,
+        0x0e => x >= 2,
+        _ => true,
+    };
+    match res {
+        Err(_) => {
+            // rejected iff the declared length is not the varint's size or the value is out of range
+            assert!(len as usize != size || !in_range);
+            2
+        }
+        Ok(q) => {
+            assert!(len as usize == size && in_range);
+            let mut e = d;
+            match id {
+                0x01 => e.max_idle_timeout = vi(x),
+                0x03 => e.max_udp_payload_size = vi(x),
+                0x04 => e.initial_max_data = vi(x),
+                0x05 => e.initial_max_stream_data_bidi_local = vi(x),
+                0x06 => e.initial_max_stream_data_bidi_remote = vi(x),
+                0x07 => e.initial_max_stream_data_uni = vi(x),
+                0x08 => e.initial_max_streams_bidi = vi(x),
+                0x09 => e.initial_max_streams_uni = vi(x),
+                0x0a => e.ack_delay_exponent = vi(x),
+                0x0b => e.max_ack_delay = vi(x),
+                0x0e => e.active_connection_id_limit = vi(x),
+                _ => return 0,
+            }
+            assert!(q == e);
+            1
+        }
+    }
+}
+
+/// C03.e / C17: `validate_resumption_from`: accepted iff no remembered limit shrank.
+pub fn resumption(a: [u64; 8], b: [u64; 8], ga: bool, gb: bool, da: bool, db: bool) -> u32 {
+    let mut i = 0;
+    while i < 8 {
+        if a[i] >= V62 || b[i] >= V62 {
+            return 0;
+        }
+        i += 1;
+    }
+    let mk = |v: &[u64; 8], g: bool, dg: bool| {
+        let mut p = TransportParameters::default();
+        p.active_connection_id_limit = vi(v[0]);
+        p.initial_max_data = vi(v[1]);
+        p.initial_max_stream_data_bidi_local = vi(v[2]);
+        p.initial_max_stream_data_bidi_remote = vi(v[3]);
+        p.initial_max_stream_data_uni = vi(v[4]);
+        p.initial_max_streams_bidi = vi(v[5]);
+        p.initial_max_streams_uni = vi(v[6]);
+        p.max_datagram_frame_size = if dg { Some(vi(v[7])) } else { None };
+        p.grease_quic_bit = g;
+        p
+    };
+    let new = mk(&a, ga, da);
+    let cached = mk(&b, gb, db);
+    let r = new.validate_resumption_from(&cached);
+    let mut shrank = false;
+    let mut i = 0;
+    while i < 7 {
+        if b[i] > a[i] {
+            shrank = true;
+        }
+        i += 1;
+    }
+    // Option<VarInt> ordering: None < Some(_)
+    let dg_shrank = match (db, da) {
+        (true, false) => true,
+        (true, true) => b[7] > a[7],
+        _ => false,
+    };
+    let want_err = shrank || dg_shrank || (gb && !ga);
+    assert!(r.is_err() == want_err);
+    core::mem::forget(r);
+    if want_err { 2 } else { 1 }
+}
